@@ -219,7 +219,7 @@ class HashRules:
                             why = 'byte %d of the padded message is %s, standard says %s' % (i, show(flat[i]), show(w))
                             # a byte the interpreter lost (unknown, or a non-integer left by a library container or algorithm outside its model) is not a wrong byte:
                             # the residue is undecided, not a violation (the corrected form of seed C02-r7-change1 must not alarm)
-                            if _has_top(flat[i]) or flat[i][0] in ('p', 'ptop', 'opaque', 'fn', 'null'):
+                            if (_has_top(flat[i]) or flat[i][0] in ('p', 'ptop', 'opaque', 'fn', 'null')):
                                 ok = None
                             break
                 if ok is None:
@@ -289,13 +289,20 @@ class HashRules:
                     if g != w:
                         ok = False
                         det = 'digest byte %d is %s, standard says %s' % (i, show(g), show(w))
+                        # written, but with a value the interpreter lost (library call outside the model): undecided, as in R07.d;
+                        # a byte that is never written stays a violation
+                        raw = s.mem.get((OUTB, (i,)))
+                        if raw is not None and (_has_top(raw) or raw[0] in ('p', 'ptop', 'opaque', 'fn', 'null')):
+                            ok = None
                         break
                 extra = [k for k in s.mem if k[0] == OUTB and isinstance(k[1][0], int) and k[1][0] >= 4 * n]
                 if extra:
                     ok = False
                     det = 'writes beyond the digest length'
+            if ok is None:
+                det = 'UNDECIDED: ' + det
             rec.ob('R07.f', 'R07.f@%s::digest-byte-order' % fkey(f), ok, '%s:%s' % (f['file'], f['line']),
-                   '%s: %d digest bytes are the chaining words in %s-endian order (%s)' % (kind, 4 * n, 'little' if kind == 'md5' else 'big', 'yes' if ok else 'NO: ' + det))
+                   '%s: %d digest bytes are the chaining words in %s-endian order (%s)' % (kind, 4 * n, 'little' if kind == 'md5' else 'big', 'yes' if ok else ('NO: ' if ok is False else '') + det))
 
     # ------------------------------------------------------------------ R07.e drivers
     def drivers(self):
